@@ -47,6 +47,7 @@ func checkC18(c *Check, a *Anchors) {
 	c17PrefixUnderLock(c, a)
 	noInPlaceMutationOfShared(c, a, "no-in-place-mutation")
 	copierNeverAliases(c, a)
+	templatePerString(c, a)
 	writerSerialised(c, a)
 	c08CopyExhaustive(c, a) // a "copy" that keeps a mutable reference of the definition is state shared by every concurrent run of the task
 	sharedWait(c, a) // the recorded outcome is written before the completion signal (happens-before for the waiters' read)
